@@ -182,21 +182,49 @@ func findTypeNameViolation(
 	pos token.Pos,
 ) *PackageOnlyViolation {
 	if obj.IsAlias() {
-		// The alias may also stand for a pointer to the defined type: type P = *T
-		denoted := types.Unalias(obj.Type())
-		if ptr, ok := denoted.(*types.Pointer); ok {
-			denoted = types.Unalias(ptr.Elem())
-		}
-		named, ok := denoted.(*types.Named)
-		if !ok || named.Obj().Pkg() == nil {
-			return nil
-		}
-		obj = named.Obj()
+		// The alias may also stand for a pointer to the defined type, or for a slice, array,
+		// channel or map of it: type P = *T, type S = []T
+		return findDenotedTypeViolation(ctx, obj.Type(), pos, 0)
 	}
 	if obj.Pkg().Path() == ctx.currentPkgPath {
 		return nil // Usage within the same package is always allowed
 	}
 	return findTypeViolation(ctx, obj.Pkg().Path(), obj.Name(), pos)
+}
+
+// findDenotedTypeViolation checks the defined type that t is, points to, or is a slice, array,
+// channel or map of
+func findDenotedTypeViolation(
+	ctx *packageOnlyContext,
+	t types.Type,
+	pos token.Pos,
+	depth int,
+) *PackageOnlyViolation {
+	for ; t != nil && depth < 32; depth++ {
+		switch u := types.Unalias(t).(type) {
+		case *types.Named:
+			if u.Obj().Pkg() == nil || u.Obj().Pkg().Path() == ctx.currentPkgPath {
+				return nil
+			}
+			return findTypeViolation(ctx, u.Obj().Pkg().Path(), u.Obj().Name(), pos)
+		case *types.Pointer:
+			t = u.Elem()
+		case *types.Slice:
+			t = u.Elem()
+		case *types.Array:
+			t = u.Elem()
+		case *types.Chan:
+			t = u.Elem()
+		case *types.Map:
+			if v := findDenotedTypeViolation(ctx, u.Key(), pos, depth+1); v != nil {
+				return v
+			}
+			t = u.Elem()
+		default:
+			return nil
+		}
+	}
+	return nil
 }
 
 // findTypeViolation checks if a type usage violates @packageonly restrictions
